@@ -660,6 +660,14 @@ func (mf *MultiFileAppendable) appendableFor(off int64) (appendable.Appendable, 
 	}
 
 	app, err := mf.appendables.Get(appID)
+	if errors.Is(err, cache.ErrKeyNotFound) {
+		// the chunk was evicted by a concurrent open (another reader or a
+		// prefetch) between its insertion and this retrieval: open it again
+		mf.mutex.Unlock()
+		app, err = mf.appendableFor(off)
+		mf.mutex.Lock()
+		return app, err
+	}
 	if err != nil {
 		return nil, err
 	}
